@@ -136,69 +136,112 @@ func cmdCheck(args []string) int {
 		return hasTag(ob.Tags, id) || (hasTag(ob.Tags, "canary") && obligInProperty(ob, id))
 	}
 	var sessions []*Session
-	for _, n := range sortedKeys(g.cs.Funcs) {
-		c := g.cs.Funcs[n]
-		if c.Trusted {
-			continue
-		}
-		sess := g.Verify(c)
-		sessionByFunc[sess.Func] = sess
-		sessions = append(sessions, sess)
-	}
-	// cover obligations ride along with sessions that have selected obligations
-	wantAll := func(ob *Oblig) bool { return want(ob) || ob.Cover }
-	var active []*Session
-	for _, s := range sessions {
-		has := s.Unsup != ""
-		for _, ob := range s.Obligs {
-			if want(ob) {
-				has = true
-			}
-		}
-		if has {
-			active = append(active, s)
-		}
-	}
-	// a function that left the subset only matters to this property if its contract mentions it
-	var kept []*Session
-	for _, s := range active {
-		if s.Unsup != "" && !contractMentions(g.cs.Funcs[s.Func], id) {
-			continue
-		}
-		kept = append(kept, s)
-	}
-	sessions = kept
-	parallelDischarge(sessions, wantAll, cfg)
-
-	// second pass: obligations left undecided (timeout / unknown, not refuted) are retried one at a
-	// time with twice the time, so that load on the machine does not turn into an alarm
-	retrySem := make(chan struct{}, 4)
-	var rwg sync.WaitGroup
-	for _, s := range sessions {
-		for _, ob := range s.Obligs {
-			if !want(ob) || ob.Cover || ob.Canary || ob.Result == "unsat" || ob.Result == "sat" || ob.Result == "error" || ob.Result == "" {
+	var inlinedNote []string
+	for pass := 0; pass < 2; pass++ {
+		sessions = nil
+		sessionByFunc = map[string]*Session{}
+		for _, n := range sortedKeys(g.cs.Funcs) {
+			c := g.cs.Funcs[n]
+			if c.Trusted || g.inlined[n] {
 				continue
 			}
-			if cfg.NoRace[ob.Name] {
-				continue
-			}
-			rwg.Add(1)
-			go func(s *Session, ob *Oblig) {
-				defer rwg.Done()
-				retrySem <- struct{}{}
-				defer func() { <-retrySem }()
-				c2 := cfg
-				c2.TimeoutMs = cfg.TimeoutMs * 2
-				c2.Thorough = true // also asks z3 4.8.12 again, standalone
-				prev := ob.Result
-				raceStandalone(s, ob, c2)
-				if ob.Result == "error" && prev != "error" {
-					ob.Result = prev
+			sess := g.Verify(c)
+			sessionByFunc[sess.Func] = sess
+			sessions = append(sessions, sess)
+		}
+		// cover obligations ride along with sessions that have selected obligations
+		wantAll := func(ob *Oblig) bool { return want(ob) || ob.Cover }
+		var active []*Session
+		for _, s := range sessions {
+			has := s.Unsup != ""
+			for _, ob := range s.Obligs {
+				if want(ob) {
+					has = true
 				}
-			}(s, ob)
+			}
+			if has {
+				active = append(active, s)
+			}
 		}
+		// a function that left the subset only matters to this property if its contract mentions it
+		var kept []*Session
+		for _, s := range active {
+			if s.Unsup != "" && !contractMentions(g.cs.Funcs[s.Func], id) {
+				continue
+			}
+			kept = append(kept, s)
+		}
+		sessions = kept
+		parallelDischarge(sessions, wantAll, cfg)
+
+		// second pass: obligations left undecided (timeout / unknown, not refuted) are retried one at a
+		// time with twice the time, so that load on the machine does not turn into an alarm
+		retrySem := make(chan struct{}, 4)
+		var rwg sync.WaitGroup
+		for _, s := range sessions {
+			for _, ob := range s.Obligs {
+				if !want(ob) || ob.Cover || ob.Canary || ob.Result == "unsat" || ob.Result == "sat" || ob.Result == "error" || ob.Result == "" {
+					continue
+				}
+				if cfg.NoRace[ob.Name] {
+					continue
+				}
+				rwg.Add(1)
+				go func(s *Session, ob *Oblig) {
+					defer rwg.Done()
+					retrySem <- struct{}{}
+					defer func() { <-retrySem }()
+					c2 := cfg
+					c2.TimeoutMs = cfg.TimeoutMs * 2
+					c2.Thorough = true // also asks z3 4.8.12 again, standalone
+					prev := ob.Result
+					raceStandalone(s, ob, c2)
+					if ob.Result == "error" && prev != "error" {
+						ob.Result = prev
+					}
+				}(s, ob)
+			}
+		}
+		rwg.Wait()
+		if pass == 1 || os.Getenv("VERIF_NOINLINE") != "" {
+			break
+		}
+		// Fallback: a function that has a contract only because its name matches a schema (no contract
+		// block of its own) and that fails, or is used by a function that fails, is verified as part of
+		// its callers instead (its body is executed in place, like a helper without contract), when it
+		// is loop-free and not recursive. This keeps helper extraction from raising an alarm; a real
+		// defect still fails, in the caller.
+		failedFn := map[string]bool{}
+		for _, s := range sessions {
+			bad := s.Unsup != ""
+			for _, ob := range s.Obligs {
+				if wantAll(ob) && !ob.Cover && !ob.Canary && ob.Result != "unsat" && !knownNames[ob.Name] {
+					bad = true
+				}
+			}
+			if bad {
+				failedFn[s.Func] = true
+			}
+		}
+		cand := map[string]bool{}
+		for f := range failedFn {
+			if c := g.cs.Funcs[f]; c != nil && c.SchemaOnly && g.inlinable(g.funcs[f]) {
+				cand[f] = true
+			}
+			for callee := range g.uses[f] {
+				if c := g.cs.Funcs[callee]; c != nil && c.SchemaOnly && g.inlinable(g.funcs[callee]) && g.onlyCalledStatically(callee) {
+					cand[callee] = true
+				}
+			}
+		}
+		if len(cand) == 0 {
+			break
+		}
+		g.inlined = cand
+		inlinedNote = sortedKeys(cand)
+		fmt.Fprintf(os.Stderr, "inline fallback: %v\n", inlinedNote)
 	}
-	rwg.Wait()
+	inlinedFuncs = inlinedNote
 	violations := 0
 	knownHits := 0
 	var obligs []*Oblig
@@ -458,15 +501,27 @@ func writeEvidence(id, tier string, seed int, obligs []*Oblig, funcs []string, g
 	ev.Coverage["functions_outside_subset"] = unsup
 	var assumed []string
 	for _, sname := range sortedKeys(sessionByFunc) {
+		own := false
+		if g != nil && g.cs != nil {
+			if c := g.cs.Funcs[sname]; c != nil {
+				for _, pr := range c.Props {
+					if pr == id {
+						own = true
+					}
+				}
+			}
+		}
 		for _, a := range sessionByFunc[sname].Assumed {
-			if strings.Contains(a, "("+id) || id == "C05" || id == "C06" {
+			isPos := strings.Contains(a, "/post:") || strings.Contains(a, "/inv")
+			if strings.Contains(a, "("+id) || own && !isPos || (id == "C05" || id == "C06") && isPos {
 				assumed = append(assumed, a)
 			}
 		}
 	}
-	if id == "C05" || id == "C06" {
-		ev.Coverage["clauses_assumed_not_proved"] = assumed
+	if assumed == nil {
+		assumed = []string{}
 	}
+	ev.Coverage["clauses_assumed_not_proved"] = assumed
 	if g != nil && g.cs != nil {
 		ev.Coverage["contract_files"] = relFiles(g.cs.Files)
 		ev.Coverage["contract_lines"] = g.cs.Lines
@@ -483,6 +538,9 @@ func writeEvidence(id, tier string, seed int, obligs []*Oblig, funcs []string, g
 		"a check discharges the obligations tagged with its property and assumes the clauses of the other claimed properties on the same functions; those are discharged by the checks of their own properties (tools/runall.sh runs all). A clause with explicit property tags is a hypothesis only for later clauses that share a tag; a clause listed as a known finding is never a hypothesis",
 	}
 	ev.Coverage["cross_checked"] = XcheckDone
+	if len(inlinedFuncs) > 0 {
+		ev.Coverage["verified_inlined_into_callers"] = inlinedFuncs
+	}
 	if aux != nil {
 		ev.Assumptions = append(ev.Assumptions, aux.assumptions...)
 	}
@@ -494,6 +552,7 @@ func writeEvidence(id, tier string, seed int, obligs []*Oblig, funcs []string, g
 
 var propertyAssumptions = map[string][]string{}
 var knownNames = map[string]bool{}
+var inlinedFuncs []string
 
 func relFiles(fs []string) []string {
 	var out []string
